@@ -79,6 +79,8 @@ def insert_quant(
   # and find the first consumer of the new tensor
   first_consumer_id = min(transformation_input.consumers)
   for consumer_id in transformation_input.consumers:
+    if consumer_id < 0:
+      continue  # Graph output, handled below.
     op = transformation_input.subgraph.operators[consumer_id]
     for input_idx in range(len(op.inputs)):
       if op.inputs[input_idx] == transformation_input.tensor_id:
@@ -86,7 +88,9 @@ def insert_quant(
 
   # if the output is also an output to the graph, we need to update that as well
   for output_idx, output in enumerate(transformation_input.subgraph.outputs):
-    if output == transformation_input.tensor_id:
+    if output == transformation_input.tensor_id and (
+        -1 in transformation_input.consumers
+    ):
       transformation_input.subgraph.outputs[output_idx] = new_tensor_id
 
   # add dequant into the subgraph op list,
